@@ -67,8 +67,14 @@ pub struct Builder<'a> {
 /// Count a call of an instrumented user closure and panic at the configured one.
 fn crash_tick(crash: Option<u64>, calls: &std::cell::Cell<u64>) {
     if let Some(k) = crash {
+        // bits 40.. of the call count: milliseconds the closure sleeps before it panics (a replica
+        // that fails slowly, while the rest of the job goes idle)
+        let (delay_ms, k) = (k >> 40, k & ((1u64 << 40) - 1));
         calls.set(calls.get() + 1);
         if calls.get() == k {
+            if delay_ms > 0 {
+                std::thread::sleep(std::time::Duration::from_millis(delay_ms));
+            }
             panic!("injected crash");
         }
     }
